@@ -12,6 +12,12 @@ TP = "ckb_tx_pool::pool::TxPool::"
 PM = "ckb_tx_pool::component::pool_map::PoolMap::"
 
 
+def _distinct_locals(b, c):
+    """the two operands of `a.difference(b)` are different variables"""
+    import tables as _T
+    return "p" in c.args[0] and "p" in c.args[1] and _T.root_local(b, c.args[0]) != _T.root_local(b, c.args[1])
+
+
 def run(F, S, R, tier):
     up = F.need("ckb_tx_pool::process::_update_tx_pool_for_reorg")
 
@@ -117,7 +123,7 @@ def run(F, S, R, tier):
         b = co[0]
         K.order_dom(R, "order/readd", b, r"process::_update_tx_pool_for_reorg$", r"TxPoolService>?::readd_detached_tx$", what="detached transactions are re-added after the pool was brought to the new chain")
         df = b.calls_to(r"LinkedHashSet::<.*>::difference$")
-        if df and K.src_match(b.operand_sources(df[0].args[0]), [r"var:detached"]) and K.src_match(b.operand_sources(df[0].args[1]), [r"var:attached"]):
+        if df and K.src_match(b.operand_sources(df[0].args[0]), [r"call:.*BlockView::transactions$|call:.*detached_blocks", r"vty:ckb_util::linked_hash_set::LinkedHashSet<ckb_types::core::views::TransactionView>$"]) and K.src_match(b.operand_sources(df[0].args[1]), [r"vty:ckb_util::linked_hash_set::LinkedHashSet<ckb_types::core::views::TransactionView>$"]) and _distinct_locals(b, df[0]):
             R.ok("prov/readd/retain", "retain = detached \\ attached", [df[0].where()])
         else:
             R.bad("prov/readd/retain", "the re-add set is not detached.difference(attached)", [b.where()])
